@@ -342,7 +342,7 @@ def nontrivial(case: dict[str, Any]) -> bool:
 
 
 def shards(tier: str) -> list[dict[str, Any]]:
-    n = 25 if tier == "quick" else 900
+    n = 25 if tier == "quick" else 2000
     return [{"what": "services", "n": n} for _ in range(8)] + [{"what": "identifiers", "n": n * 2} for _ in range(8)]
 
 
